@@ -166,7 +166,7 @@ fn kind_allowed(cfg: &WorldCfg, k: KindTag) -> bool {
 
 pub fn gen_world(src: &mut Src<'_>, cfg: &WorldCfg) -> WorldSpec {
 	let nl = cfg.min_leaves + src.pick(cfg.max_leaves - cfg.min_leaves + 1);
-	let mut w = WorldSpec { leaves: (0..nl).map(|_| gen_leaf(src, cfg)).collect(), colls: vec![] };
+	let mut w = WorldSpec { leaves: (0..nl).map(|_| gen_leaf(src, cfg)).collect(), colls: vec![], layout: vec![] };
 	let nc = cfg.min_colls + src.pick(cfg.max_colls - cfg.min_colls + 1);
 	for ci in 0..nc {
 		let byval = src.chance(cfg.p_byval);
@@ -310,6 +310,9 @@ pub fn gen_world(src: &mut Src<'_>, cfg: &WorldCfg) -> WorldSpec {
 			}
 		}
 	}
+	// heap placement of by-value members (only matters when there are any)
+	let nl = src.pick(7);
+	w.layout = (0..nl).map(|_| src.byte()).collect();
 	w
 }
 
